@@ -31,10 +31,20 @@ var (
 type source struct {
 	name    string
 	isState bool
-	root    common.Hash
+	root    common.Hash // = roots[0]
 	disk    *youdb.MemDatabase
 
-	nodes map[common.Hash][]byte        // every blob reachable from root (trie nodes, code, delegation blobs)
+	// A source FAMILY has more than one root: roots[0] is the state the sync is
+	// started on, roots[1] a newer state of the same accounts (one account
+	// changed), which the sync is restarted on when the pivot moves (op pivot).
+	// nodes/kids/kind/order/idx cover the union of all roots; reach[t] is the
+	// set reachable from roots[t]; contents[t] the real readers' view of roots[t].
+	roots    []common.Hash
+	reach    []map[common.Hash]bool
+	contents []string
+	shared   map[common.Hash]bool // raw blobs referenced by two or more account leaves of one root
+
+	nodes map[common.Hash][]byte        // every blob reachable from a root (trie nodes, code, delegation blobs)
 	kids  map[common.Hash][]common.Hash // direct references of a blob, union over every context it is reached in
 	order []common.Hash                 // nodes sorted by hash: index = short name nI
 	idx   map[common.Hash]int
@@ -42,8 +52,28 @@ type source struct {
 
 	addrs   []common.Address // state sources: accounts to observe through the real StateDB
 	slots   []common.Hash
-	content string // observation of the source through the real reader
 	foreign []byte // a well-formed trie node that is not part of the source
+}
+
+// label names the root a verdict is about: the plain source name for the
+// first root, name@rootN for the newer roots of a family.
+func (s *source) label(t int) string {
+	if t == 0 {
+		return s.name
+	}
+	return fmt.Sprintf("%s@root%d", s.name, t+1)
+}
+
+// allowed: may h be in the destination while (or after) roots[t] is synced?
+// Nodes of an older root stay behind when the pivot moves; nodes that only a
+// newer root has must not appear before the pivot moved.
+func (s *source) allowed(h common.Hash, t int) bool {
+	for i := 0; i <= t && i < len(s.reach); i++ {
+		if s.reach[i][h] {
+			return true
+		}
+	}
+	return false
 }
 
 func (s *source) n(h common.Hash) string {
@@ -208,10 +238,43 @@ func (s *source) index() {
 			visit(c, "raw")
 		}
 	}
-	if s.isState {
-		visit(s.root, "acct")
-	} else {
-		visit(s.root, "trie")
+	if len(s.roots) == 0 {
+		s.roots = []common.Hash{s.root}
+	}
+	s.root = s.roots[0]
+	for _, root := range s.roots {
+		if s.isState {
+			visit(root, "acct")
+		} else {
+			visit(root, "trie")
+		}
+	}
+	// per-root reachability over the reference graph, and the blobs shared by
+	// several account leaves of one root
+	s.shared = map[common.Hash]bool{}
+	for _, root := range s.roots {
+		in := map[common.Hash]bool{}
+		refs := map[common.Hash]int{}
+		var walk func(h common.Hash)
+		walk = func(h common.Hash) {
+			if in[h] {
+				return
+			}
+			in[h] = true
+			for _, c := range s.kids[h] {
+				if s.kind[c] == "raw" {
+					refs[c]++
+				}
+				walk(c)
+			}
+		}
+		walk(root)
+		s.reach = append(s.reach, in)
+		for c, n := range refs {
+			if n > 1 {
+				s.shared[c] = true
+			}
+		}
 	}
 	for h := range s.nodes {
 		s.order = append(s.order, h)
@@ -226,9 +289,12 @@ func (s *source) index() {
 	if _, ok := s.nodes[crypto.Keccak256Hash(s.foreign)]; ok {
 		panic("c19: foreign node collides")
 	}
-	var err error
-	if s.content, err = s.observe(s.disk); err != nil {
-		panic("c19: cannot observe source " + s.name + ": " + err.Error())
+	for t := range s.roots {
+		c, err := s.observe(s.disk, t)
+		if err != nil {
+			panic("c19: cannot observe source " + s.label(t) + ": " + err.Error())
+		}
+		s.contents = append(s.contents, c)
 	}
 }
 
@@ -237,22 +303,26 @@ func (s *source) describe() string {
 	for i, h := range s.order {
 		out = append(out, fmt.Sprintf("n%d=%s(%dB)->[%s]", i, s.kind[h], len(s.nodes[h]), s.names(s.kids[h])))
 	}
-	return s.name + ": root=" + s.n(s.root) + " " + strings.Join(out, " ")
+	roots := "root=" + s.n(s.root)
+	for t := 1; t < len(s.roots); t++ {
+		roots += fmt.Sprintf(" root%d=%s", t+1, s.n(s.roots[t]))
+	}
+	return s.name + ": " + roots + " " + strings.Join(out, " ")
 }
 
 // observe reads the complete content through the REAL reader code (trie
 // iterator / StateDB + state NodeIterator) from any database.
-func (s *source) observe(db youdb.Database) (out string, err error) {
-	if msg := mc.Catch(func() { out, err = s.observe0(db) }); msg != "" {
+func (s *source) observe(db youdb.Database, t int) (out string, err error) {
+	if msg := mc.Catch(func() { out, err = s.observe0(db, s.roots[t]) }); msg != "" {
 		return "", fmt.Errorf("panic: %s", msg)
 	}
 	return
 }
 
-func (s *source) observe0(db youdb.Database) (string, error) {
+func (s *source) observe0(db youdb.Database, root common.Hash) (string, error) {
 	var b strings.Builder
 	if !s.isState {
-		t, err := trie.New(s.root, trie.NewDatabase(db))
+		t, err := trie.New(root, trie.NewDatabase(db))
 		if err != nil {
 			return "", err
 		}
@@ -274,7 +344,7 @@ func (s *source) observe0(db youdb.Database) (string, error) {
 		fmt.Fprintf(&b, "nodes=%d", n)
 		return b.String(), nil
 	}
-	st, err := state.New(s.root, common.Hash{}, common.Hash{}, state.NewDatabase(db))
+	st, err := state.New(root, common.Hash{}, common.Hash{}, state.NewDatabase(db))
 	if err != nil {
 		return "", err
 	}
@@ -360,6 +430,187 @@ func stateSource(name string, build func(st *state.StateDB, round int, db state.
 	return s
 }
 
+// stateFamily commits one state per round on top of the previous one; every
+// round's root is a root of the family (roots[0] = oldest).
+func stateFamily(name string, addrs []common.Address, rounds ...func(st *state.StateDB)) *source {
+	disk := youdb.NewMemDatabase()
+	db := state.NewDatabase(disk)
+	var root, vr, sr common.Hash
+	var roots []common.Hash
+	for _, build := range rounds {
+		st, err := state.New(root, vr, sr, db)
+		if err != nil {
+			panic(err)
+		}
+		build(st)
+		if root, vr, sr, err = st.Commit(false); err != nil {
+			panic(err)
+		}
+		if err := db.TrieDB().Commit(root, false); err != nil {
+			panic(err)
+		}
+		roots = append(roots, root)
+	}
+	s := &source{name: name, isState: true, roots: roots, disk: disk, addrs: addrs, slots: stx.Slots}
+	s.index()
+	return s
+}
+
+// leafOf returns the account-trie node that holds addr's account in roots[t]
+// (found by decoding every "acct" node's own leaves with the independent parser
+// is not possible without the key, so the real secure trie's iterator is used:
+// harness-side shape assertion only, never an oracle).
+func (s *source) leafOf(t int, addr common.Address) common.Hash {
+	tr, err := trie.New(s.roots[t], trie.NewDatabase(s.disk))
+	if err != nil {
+		panic(err)
+	}
+	want := crypto.Keccak256(addr[:])
+	it := tr.NodeIterator(nil)
+	for it.Next(true) {
+		if it.Leaf() && bytes.Equal(it.LeafKey(), want) {
+			return it.Parent()
+		}
+	}
+	panic(fmt.Sprintf("c19: source %s has no account %x", s.name, addr))
+}
+
+// parentsOf: nodes of roots[t] that reference h.
+func (s *source) parentsOf(t int, h common.Hash) (out []common.Hash) {
+	for _, p := range s.order {
+		if !s.reach[t][p] {
+			continue
+		}
+		for _, c := range s.kids[p] {
+			if c == h {
+				out = append(out, p)
+			}
+		}
+	}
+	return
+}
+
+func (s *source) must(cond bool, what string) {
+	if !cond {
+		panic("c19: source " + s.name + " has not the intended shape: " + what + "\n" + s.describe())
+	}
+}
+
+// A fourth account for the shared-blob sources.  Secure-trie keys start with
+// nibble a (stx.Acc[0]), 2 (Acc[1]), d,b (Acc[2]) and d,3 (acc4): Acc[2] and
+// acc4 sit below a common sub-branch, the others directly below the root.  The
+// shape every source relies on is asserted after building it.
+var acc4 = common.HexToAddress("0xa000000000000000000000000000000000000005")
+
+var (
+	codeX = []byte{0x60, 0x01, 0x60, 0x02}
+	codeY = []byte{0x60, 0x00, 0x60, 0x00, 0xfd}
+)
+
+// sharedBlobSources: sources in which one code blob and/or one delegation blob
+// is referenced by two or three account leaves (a token contract deployed many
+// times; many delegators of one validator), most of them as a family whose
+// second root is the state a block later: ONE of the sharing accounts changed.
+func sharedBlobSources(all bool) []*source {
+	var out []*source
+	raw := func(s *source, t int, blob []byte) common.Hash {
+		h := crypto.Keccak256Hash(blob)
+		s.must(s.reach[t][h] && s.kind[h] == "raw", fmt.Sprintf("blob %x is a raw node of root %d", blob, t+1))
+		return h
+	}
+
+	// 10. two contracts with the same code, directly below the root branch, the
+	// second one also a delegator (its leaf waits for a code AND a delegations
+	// blob); a block later the first one has other code (the shared blob is then
+	// referenced by the unchanged account only)
+	s := stateFamily("shared-code-2", []common.Address{stx.Acc[0], stx.Acc[1]},
+		func(st *state.StateDB) {
+			stx.CreateVal(st, 0, stx.Tok(10, 7), params.ValidatorOnline)
+			for i := 0; i < 2; i++ {
+				st.AddBalance(stx.Acc[i], stx.Tok(50, int64(i)))
+				st.SetCode(stx.Acc[i], codeX)
+			}
+			st.UpdateDelegation(stx.Acc[1], st.GetValidatorByMainAddr(stx.ValAddr[0]), stx.Tok(2, 1))
+		},
+		func(st *state.StateDB) { st.SetCode(stx.Acc[0], codeY) })
+	x := raw(s, 0, codeX)
+	s.must(s.shared[x] && len(s.parentsOf(0, x)) == 2 && len(s.parentsOf(1, x)) == 1, "code X: two leaves, then one")
+	s.must(len(s.kids[s.leafOf(0, stx.Acc[1])]) == 2, "the leaf of account 1 references a code and a delegations blob")
+	s.must(s.leafOf(1, stx.Acc[1]) == s.leafOf(0, stx.Acc[1]) && s.leafOf(1, stx.Acc[0]) != s.leafOf(0, stx.Acc[0]), "only account 0 changes")
+	raw(s, 1, codeY)
+	out = append(out, s)
+
+	// 11. two delegators of one validator: one delegations blob (the sorted list
+	// of validators delegated to); a block later the first one also delegates to
+	// a second validator
+	s = stateFamily("shared-delegations-2", []common.Address{stx.Acc[1], stx.Acc[2]},
+		func(st *state.StateDB) {
+			stx.CreateVal(st, 0, stx.Tok(10, 7), params.ValidatorOnline)
+			stx.CreateVal(st, 1, stx.Tok(10, 7), params.ValidatorOnline)
+			for i := 1; i <= 2; i++ {
+				st.AddBalance(stx.Acc[i], stx.Tok(50, int64(i)))
+				st.UpdateDelegation(stx.Acc[i], st.GetValidatorByMainAddr(stx.ValAddr[0]), stx.Tok(2, 1))
+			}
+		},
+		func(st *state.StateDB) {
+			st.UpdateDelegation(stx.Acc[1], st.GetValidatorByMainAddr(stx.ValAddr[1]), stx.Tok(1, 0))
+		})
+	var dl []common.Hash
+	for h := range s.shared {
+		dl = append(dl, h)
+	}
+	s.must(len(dl) == 1 && len(s.parentsOf(0, dl[0])) == 2 && len(s.parentsOf(1, dl[0])) == 1, "one delegations blob: two leaves, then one")
+	s.must(s.leafOf(1, stx.Acc[2]) == s.leafOf(0, stx.Acc[2]) && s.leafOf(1, stx.Acc[1]) != s.leafOf(0, stx.Acc[1]), "only delegator 1 changes")
+	out = append(out, s)
+
+	// 12. three contracts with the same code in different sub-tries: one
+	// directly below the root, two below a common sub-branch; a block later one
+	// of the two below the sub-branch has other code
+	three := []common.Address{stx.Acc[0], stx.Acc[2], acc4}
+	build3 := func(st *state.StateDB) {
+		for i, a := range three {
+			st.AddBalance(a, big.NewInt(int64(100+i)))
+			st.SetCode(a, codeX)
+		}
+	}
+	shape3 := func(s *source) {
+		x := raw(s, 0, codeX)
+		s.must(s.shared[x] && len(s.parentsOf(0, x)) == 3, "code X: three leaves")
+		l0, l2, l4 := s.leafOf(0, three[0]), s.leafOf(0, three[1]), s.leafOf(0, three[2])
+		p0, p2, p4 := s.parentsOf(0, l0), s.parentsOf(0, l2), s.parentsOf(0, l4)
+		s.must(len(p0) == 1 && len(p2) == 1 && len(p4) == 1 && p0[0] == s.root && p2[0] == p4[0] && p2[0] != s.root, "one leaf below the root, two below a sub-branch")
+	}
+	s = stateFamily("shared-code-3-subtries", three, build3, func(st *state.StateDB) { st.SetCode(acc4, codeY) })
+	shape3(s)
+	s.must(len(s.parentsOf(1, raw(s, 1, codeX))) == 2 && s.leafOf(1, three[1]) == s.leafOf(0, three[1]), "code X: two unchanged leaves in the newer root")
+	out = append(out, s)
+
+	// 13. both kinds at once: account 0 has code X, account 2 has code X and
+	// delegates to validator 0, account 4 delegates to validator 0 (so the leaf of
+	// account 2 waits for two blobs, each shared with another leaf); a block later
+	// account 2 has other code
+	if all {
+		s = stateFamily("shared-code-and-delegations-3", three,
+			func(st *state.StateDB) {
+				stx.CreateVal(st, 0, stx.Tok(10, 7), params.ValidatorOnline)
+				for i, a := range three {
+					st.AddBalance(a, stx.Tok(50, int64(i)))
+				}
+				st.SetCode(three[0], codeX)
+				st.SetCode(three[1], codeX)
+				st.UpdateDelegation(three[1], st.GetValidatorByMainAddr(stx.ValAddr[0]), stx.Tok(2, 1))
+				st.UpdateDelegation(three[2], st.GetValidatorByMainAddr(stx.ValAddr[0]), stx.Tok(2, 1))
+			},
+			func(st *state.StateDB) { st.SetCode(three[1], codeY) })
+		x := raw(s, 0, codeX)
+		l2 := s.leafOf(0, three[1])
+		s.must(len(s.shared) == 2 && s.shared[x] && len(s.kids[l2]) == 2 && s.shared[s.kids[l2][0]] && s.shared[s.kids[l2][1]], "the leaf of account 2 references two shared blobs")
+		s.must(len(s.parentsOf(1, x)) == 1 && s.leafOf(1, three[0]) == s.leafOf(0, three[0]) && s.leafOf(1, three[2]) == s.leafOf(0, three[2]), "only account 2 changes")
+		out = append(out, s)
+	}
+	return out
+}
+
 func buildSources(big8 bool) []*source {
 	var out []*source
 	// 1. a single leaf
@@ -438,6 +689,8 @@ func buildSources(big8 bool) []*source {
 			return false
 		}))
 	}
+	// 10.. sources with a code / delegations blob shared by several accounts
+	out = append(out, sharedBlobSources(big8)...)
 	// 9. (thorough tier) a deeper plain trie: two levels of branches, an extension,
 	// the same leaf below two different branches, an embedded leaf
 	if big8 {
